@@ -257,7 +257,8 @@ fn compare_op(op: Op, lhs: &dyn Datum, rhs: &dyn Datum) -> Result<BooleanArray, 
         return Err(ArrowError::InvalidArgumentError(format!(
             "Nested comparison: {l_t} {op} {r_t} (hint: use make_comparator instead)"
         )));
-    } else if l_t != r_t {
+    } else if l_t != r_t || matches!(l_t, Dictionary(_, _) | RunEndEncoded(_, _)) {
+        // only one level of dictionary / run-end encoding is unwrapped above
         return Err(ArrowError::InvalidArgumentError(format!(
             "Invalid comparison operation: {l_t} {op} {r_t}"
         )));
